@@ -48,6 +48,7 @@ type c11RawOutcome struct {
 	rounds       int // rounds completed on distinct connections
 	leftover     bool
 	log          []string
+	relayLog     []string // relay history, kept when a violation was found
 }
 
 func runC11Raw(c *c11RawCase) (out c11RawOutcome) {
@@ -83,6 +84,18 @@ func runC11Raw(c *c11RawCase) (out c11RawOutcome) {
 		mu.Unlock()
 	}
 	failed := func() bool { mu.Lock(); defer mu.Unlock(); return out.violation != "" }
+	defer func() {
+		if out.violation == "" {
+			return
+		}
+		_, events := r.Snapshot()
+		if len(events) > 600 {
+			events = events[len(events)-600:]
+		}
+		for _, e := range events {
+			out.relayLog = append(out.relayLog, fmt.Sprintf("relay %v %s ..%x %s len=%d %s %s", e.T.Round(time.Microsecond), e.Op, e.Stream[len(e.Stream)-1:], e.Who, e.Len, e.Head, e.Note))
+		}
+	}()
 
 	acceptCh := make(chan *mailbox.ServerConn, 16)
 	var srvWG sync.WaitGroup
@@ -331,7 +344,7 @@ func TestC11RawFresh(t *testing.T) {
 				rec.Pending(o.violation, "c11raw", struct {
 					*c11RawCase
 					Log []string `json:"log"`
-				}{cases[i], o.log})
+				}{cases[i], append(o.log, o.relayLog...)})
 				rt.Fatalf("%s", o.violation)
 			}
 		}
